@@ -886,4 +886,173 @@ theorem nextToken_spec (l : Lexer) (hok : Ok l) (hst : l.state = .ground ∨ l.s
     TokPost l (nextToken l) :=
   nextTokenLoop_spec l.rest.length _ l (Nat.le_refl _) (Nat.le_refl _) hok hst
 
+/-! ## error lines are never taken back -/
+
+/-- an error written stays written -/
+def Keeps (l l' : Lexer) : Prop := l.errout ≠ [] → l'.errout ≠ []
+
+theorem Keeps.refl (l : Lexer) : Keeps l l := fun h => h
+
+theorem Keeps.trans {a b c : Lexer} (h1 : Keeps a b) (h2 : Keeps b c) : Keeps a c := fun h => h2 (h1 h)
+
+theorem Frame.keeps {l l' : Lexer} (h : Frame l l') : Keeps l l' := fun he => by rw [h.errout]; exact he
+
+theorem Moves.keeps {l l' : Lexer} (h : Moves l l') : Keeps l l' := h.frame.keeps
+
+theorem keeps_of_eq {l l' : Lexer} (h : l'.errout = l.errout) : Keeps l l' := fun he => by rw [h]; exact he
+
+theorem setFault_errout (f : Fault) (l : Lexer) : (setFault f l).errout = l.errout := by
+  unfold setFault; split <;> rfl
+
+theorem emitText_keeps (c : Code) (text : List UInt8) (l : Lexer) : Keeps l (emitText c text l) :=
+  keeps_of_eq (emitText_spec c text l).2.2.2.2.2.2.2.1
+
+theorem emit_keeps (c : Code) (l : Lexer) : Keeps l (emit c l) := by
+  unfold emit
+  split
+  · exact keeps_of_eq (setFault_errout _ _)
+  · exact emitText_keeps _ _ _
+
+theorem adderror_keeps (e : ErrLine) (l : Lexer) : Keeps l (adderror e l) := by
+  unfold adderror
+  intro h
+  split
+  · simp
+  · split
+    · exact h
+    · simp
+
+theorem errorf_keeps (cls : ErrClass) (l : Lexer) : Keeps l (errorf cls l) := by
+  unfold errorf
+  exact (emit_keeps .error l).trans (adderror_keeps _ _)
+
+theorem errorfAt_keeps (line col : Int) (cls : ErrClass) (l : Lexer) : Keeps l (errorfAt line col cls l) := by
+  unfold errorfAt
+  simp only
+  intro h
+  exact errorf_keeps cls { l with line := line, col := col } h
+
+theorem setState_keeps (s : LState) (l : Lexer) : Keeps l (setState s l) := fun h => h
+
+theorem unquotedLoop_keeps : ∀ (f : Nat) (l : Lexer), Keeps l (unquotedLoop f l) := by
+  intro f
+  induction f with
+  | zero => intro l; unfold unquotedLoop; exact keeps_of_eq (setFault_errout _ _)
+  | succ f ih =>
+    intro l
+    unfold unquotedLoop
+    simp only
+    split
+    · exact (peek_moves l).keeps.trans ((emit_keeps _ _).trans (setState_keeps _ _))
+    · exact (peek_moves l).keeps.trans ((next_moves _).keeps.trans (ih _))
+
+theorem qstringLoop_keeps (indent line col : Int) : ∀ (f : Nat) (text : List UInt8) (over : Bool) (l : Lexer),
+    Keeps l (qstringLoop indent line col f text over l) := by
+  intro f
+  induction f with
+  | zero => intro _ _ l; unfold qstringLoop; exact keeps_of_eq (setFault_errout _ _)
+  | succ f ih =>
+    intro text over l
+    unfold qstringLoop
+    simp only
+    have h1 := (next_moves l).keeps
+    have h2 := h1.trans (next_moves (next l).2).keeps
+    split
+    · exact h1.trans ((errorfAt_keeps _ _ _ _).trans (setState_keeps _ _))
+    · split
+      · exact h1.trans ((emitText_keeps _ _ _).trans (setState_keeps _ _))
+      · split
+        · exact h1.trans (ih _ _ _)
+        · split
+          · split
+            · exact h1.trans (ih _ _ _)
+            · exact h1.trans (ih _ _ _)
+          · split
+            · split
+              · exact h2.trans (ih _ _ _)
+              · split
+                · exact h2.trans (ih _ _ _)
+                · split
+                  · exact h2.trans (ih _ _ _)
+                  · split
+                    · exact h2.trans ((errorfAt_keeps _ _ _ _).trans (ih _ _ _))
+                    · exact h2.trans (ih _ _ _)
+            · exact h1.trans (ih _ _ _)
+
+theorem consume_keeps (l : Lexer) : Keeps l (consume l) := fun h => h
+
+theorem groundStart_keeps (l : Lexer) : Keeps l (groundStart l) := by
+  unfold groundStart
+  simp only
+  intro h
+  exact (acceptRun_moves l).keeps h
+
+theorem groundSQuote_keeps (l : Lexer) : Keeps l (groundSQuote l) := by
+  unfold groundSQuote
+  simp only
+  have h1 := (next_moves l).keeps.trans (consume_keeps _)
+  have h2 := h1.trans (skipTo_moves [39] _).keeps
+  split
+  · exact h2.trans ((emit_keeps _ _).trans ((next_moves _).keeps.trans (setState_keeps _ _)))
+  · exact h2.trans ((errorfAt_keeps _ _ _ _).trans (setState_keeps _ _))
+
+theorem groundSlash_keeps (l : Lexer) : Keeps l (groundSlash l) := by
+  unfold groundSlash
+  simp only
+  have h1 := (next_moves l).keeps.trans (peek_moves _).keeps
+  split
+  · have h2 := h1.trans (skipTo_moves [10] _).keeps
+    split
+    · exact h2.trans (setState_keeps _ _)
+    · exact h2.trans ((errorfAt_keeps _ _ _ _).trans (setState_keeps _ _))
+  · split
+    · have h2 := h1.trans ((next_moves _).keeps.trans (skipTo_moves [42, 47] _).keeps)
+      split
+      · exact h2.trans ((next_moves _).keeps.trans ((next_moves _).keeps.trans (setState_keeps _ _)))
+      · exact h2.trans ((errorfAt_keeps _ _ _ _).trans (setState_keeps _ _))
+    · exact h1.trans (setState_keeps _ _)
+
+theorem groundPlus_keeps (l : Lexer) : Keeps l (groundPlus l) := by
+  unfold groundPlus
+  simp only
+  have h1 := (next_moves l).keeps.trans (peek_moves _).keeps
+  split
+  · exact h1.trans ((emit_keeps _ _).trans (setState_keeps _ _))
+  · exact h1.trans (setState_keeps _ _)
+
+theorem lexGround_keeps (l : Lexer) : Keeps l (lexGround l) := by
+  unfold lexGround
+  simp only
+  have h1 := (groundStart_keeps l).trans (peek_moves _).keeps
+  split
+  · exact h1.trans (setState_keeps _ _)
+  · split
+    · exact h1.trans ((next_moves _).keeps.trans ((emit_keeps _ _).trans (setState_keeps _ _)))
+    · split
+      · exact h1.trans (groundSQuote_keeps _)
+      · split
+        · exact h1.trans ((next_moves _).keeps.trans (setState_keeps _ _))
+        · split
+          · exact h1.trans (groundSlash_keeps _)
+          · split
+            · exact h1.trans (groundPlus_keeps _)
+            · exact h1.trans (setState_keeps _ _)
+
+theorem nextTokenLoop_keeps : ∀ (f : Nat) (l : Lexer), Keeps l (nextTokenLoop f l).2 := by
+  intro f
+  induction f with
+  | zero => intro l; unfold nextTokenLoop; exact keeps_of_eq (setFault_errout _ _)
+  | succ f ih =>
+    intro l
+    unfold nextTokenLoop
+    split
+    · exact fun h => h
+    · split
+      · exact Keeps.refl l
+      · exact (lexGround_keeps l).trans (ih _)
+      · exact (qstringLoop_keeps _ _ _ _ _ _ l).trans (ih _)
+      · exact (unquotedLoop_keeps _ l).trans (ih _)
+
+theorem nextToken_keeps (l : Lexer) : Keeps l (nextToken l).2 := nextTokenLoop_keeps _ l
+
 end Goyang.Lemmas.Lex
